@@ -1299,6 +1299,171 @@ def _r07d(chk, repo) -> None:
     chk.floor("R07d.mutated_objects", 2)
 
 
+TRACER = "src/sqlfluff/core/templaters/slicers/tracer.py"
+PYT = "src/sqlfluff/core/templaters/python.py"
+JINJA_BEGIN_TOKENS = ("block_begin", "variable_begin", "comment_begin", "raw_begin")
+
+
+def _eval_str_pred(e: ast.AST, var: str, value: str):
+    """Value of a side-effect free predicate over one string variable; None when it uses anything else."""
+    if isinstance(e, ast.BoolOp):
+        vs = [_eval_str_pred(v, var, value) for v in e.values]
+        if any(v is None for v in vs):
+            return None
+        return all(vs) if isinstance(e.op, ast.And) else any(vs)
+    if isinstance(e, ast.UnaryOp) and isinstance(e.op, ast.Not):
+        v = _eval_str_pred(e.operand, var, value)
+        return None if v is None else not v
+    def val(x):
+        if isinstance(x, ast.Name) and x.id == var:
+            return value
+        if isinstance(x, ast.Constant) and isinstance(x.value, str):
+            return x.value
+        if isinstance(x, (ast.Tuple, ast.List, ast.Set)) and all(isinstance(y, ast.Constant) for y in x.elts):
+            return tuple(y.value for y in x.elts)
+        return None
+    if isinstance(e, ast.Call) and isinstance(e.func, ast.Attribute) and e.func.attr in ("endswith", "startswith") and len(e.args) == 1 and not e.keywords:
+        r, a = val(e.func.value), val(e.args[0])
+        if isinstance(r, str) and a is not None:
+            return getattr(r, e.func.attr)(a)
+        return None
+    if isinstance(e, ast.Compare) and len(e.ops) == 1:
+        l, r = val(e.left), val(e.comparators[0])
+        if l is None or r is None:
+            return None
+        op = e.ops[0]
+        if isinstance(op, ast.Eq):
+            return l == r
+        if isinstance(op, ast.NotEq):
+            return l != r
+        if isinstance(op, ast.In):
+            return l in r
+        if isinstance(op, ast.NotIn):
+            return l not in r
+    return None
+
+
+def _r07e(chk, repo) -> None:
+    from ..idioms import conditions_at
+
+    n = 0
+    for q, f in repo.mod(TRACER).functions():
+        cs = [c for c in ast.walk(f) if isinstance(c, ast.Call) and last_attr(c) == "handle_left_whitespace_stripping" and enclosing_function(c) is f]
+        if not cs:
+            continue
+        cfg = cfg_of(f)
+        for c in cs:
+            n += 1
+            st = cfg.stmt_of(c)
+            # the innermost tests that mention the token-type variable
+            tests = []
+            for e, pol in conditions_at(cfg, st):
+                names = {x.id for x in ast.walk(e) if isinstance(x, ast.Name)}
+                if "elem_type" in names or any("type" in nm for nm in names):
+                    tests.append((e, pol))
+            var = None
+            for e, _ in tests:
+                for x in ast.walk(e):
+                    if isinstance(x, ast.Name) and "type" in x.id:
+                        var = x.id
+            missing = []
+            for tok in JINJA_BEGIN_TOKENS:
+                ok = True
+                for e, pol in tests:
+                    v = _eval_str_pred(e, var, tok) if var else None
+                    if v is None:
+                        ok = None
+                        break
+                    if v != pol:
+                        ok = False
+                if ok is None:
+                    raise AnalysisError(f"R07e: cannot evaluate the test `{short(tests[0][0], 50)}` guarding handle_left_whitespace_stripping; re-confirm by hand")
+                if not ok:
+                    missing.append(tok)
+            chk.require(
+                bool(tests) and not missing, "R07e", c,
+                f"{q} accounts for left whitespace stripping only under tests that are false for {missing}: whitespace removed by `{{%- raw %}}` (etc.) is then not recorded as a slice and "
+                "every later raw slice sits too early in the source",
+                detail=f"{q}: left whitespace stripping handled for every opening token",
+            )
+    chk.count("R07e.left_strip_sites", n)
+    chk.floor("R07e.left_strip_sites", 1)
+
+
+def _r07f(chk, repo) -> None:
+    f = repo.fn(PYT, "PythonTemplater._slice_template")
+    cfg = cfg_of(f)
+
+    def parts_of(e, at, depth=0) -> Optional[List[str]]:
+        """Symbolic pieces of a string expression: literal characters and the names interpolated."""
+        if depth > 4:
+            return None
+        if isinstance(e, ast.Constant) and isinstance(e.value, str):
+            return [ch for ch in e.value]
+        if isinstance(e, ast.Name):
+            os_ = origins(cfg, e, at)
+            if os_ and all(o.kind == "expr" and not o.path for o in os_):
+                # several defining expressions (a conditional expression is opened up by origins()): the
+                # longest alternative describes the piece when it is present
+                alts = [parts_of(o.expr, o.stmt, depth + 1) for o in os_]
+                if any(a is None for a in alts):
+                    return None
+                return max(alts, key=len)
+            return [f"<{e.id}>"]
+        if isinstance(e, ast.IfExp):
+            a, b = parts_of(e.body, at, depth + 1), parts_of(e.orelse, at, depth + 1)
+            if a is None or b is None:
+                return None
+            return a if len(a) >= len(b) else b  # the non-empty arm describes the piece when present
+        if isinstance(e, ast.JoinedStr):
+            out: List[str] = []
+            for v in e.values:
+                p = parts_of(v.value if isinstance(v, ast.FormattedValue) else v, at, depth + 1)
+                if p is None:
+                    return None
+                out += p
+            return out
+        if isinstance(e, ast.BinOp) and isinstance(e.op, ast.Add):
+            a, b = parts_of(e.left, at, depth + 1), parts_of(e.right, at, depth + 1)
+            return None if a is None or b is None else a + b
+        if isinstance(e, ast.Call) and isinstance(e.func, ast.Attribute) and e.func.attr == "format" and isinstance(e.func.value, ast.Constant) and isinstance(e.func.value.value, str):
+            import string
+            kw = {k.arg: k.value for k in e.keywords if k.arg}
+            out = []
+            try:
+                for lit, name, spec, conv in string.Formatter().parse(e.func.value.value):
+                    out += [ch for ch in lit]
+                    if name is not None:
+                        if spec or conv or name not in kw:
+                            return None
+                        p = parts_of(kw[name], at, depth + 1)
+                        if p is None:
+                            return None
+                        out += p
+            except ValueError:
+                return None
+            return out
+        return None
+
+    n = 0
+    for c in [c for c in ast.walk(f) if isinstance(c, ast.Call) and last_attr(c) == "RawFileSlice" and len(c.args) >= 2 and isinstance(c.args[1], ast.Constant) and c.args[1].value == "templated"]:
+        n += 1
+        st = cfg.stmt_of(c)
+        ps = parts_of(c.args[0], st)
+        if ps is None:
+            raise AnalysisError(f"R07f: cannot read how the templated slice's raw text `{short(c.args[0], 50)}` is put together; re-confirm the anchor by hand")
+        seq = [p for p in ps if p in ("{", "}", "!", ":") or p.startswith("<")]
+        want = ["{", "<field_name>", "!", "<conversion>", ":", "<format_spec>", "}"]
+        chk.require(
+            seq == want, "R07f", c,
+            f"the raw text recorded for a replacement field is put together as {''.join(seq)}, not {''.join(want)}: for a field with both a conversion and a format spec the slice's "
+            "text differs from the source at its position, so the raw slices no longer reproduce the source",
+            detail="python templater: field token rebuilt as {name!conversion:spec}",
+        )
+    chk.count("R07f.templated_field_slices", n)
+    chk.floor("R07f.templated_field_slices", 1)
+
+
 def run(chk) -> None:
     repo = chk.repo
     chk.rule("R07a", "TemplatedFile.__init__ refuses (assert/raise, equality, every element, every path) raw slices that do not tile the stored source from 0 to its length and rendered slices that do not tile the stored rendered text from 0 to its length")
@@ -1309,6 +1474,10 @@ def run(chk) -> None:
     _r07c(chk, repo)
     chk.rule("R07d", "each speculative variant is rendered from its own working state: every object the variant loop of _handle_unreached_code mutates is created afresh inside the loop (deepcopy / constructor / literal), except the reviewed result accumulator")
     _r07d(chk, repo)
+    chk.rule("R07e", "the Jinja analyzer accounts for whitespace a `-` strip marker removes in front of EVERY opening token: the test under which handle_left_whitespace_stripping runs holds for block_begin, variable_begin, comment_begin and raw_begin")
+    chk.rule("R07f", "the raw text the python templater records for a replacement field is the field as Python's format grammar writes it: '{' name ['!' conversion] [':' spec] '}', in that order")
+    _r07e(chk, repo)
+    _r07f(chk, repo)
     chk.assumptions.append("assert statements are executed (the interpreter is not run with -O); CPython ast gives the program's syntax faithfully")
     chk.note(
         "Partial claim: the two tiling clauses hold for every TemplatedFile object because its constructor enforces them and nothing bypasses it. "
@@ -1371,6 +1540,30 @@ _FINAL_FULL = (
 )
 
 VARIANTS: List[Variant] = [
+    Variant(
+        "left-strip-not-handled-for-raw-begin", TRACER,
+        '            if elem_type.endswith("_begin"):\n',
+        '            if elem_type in ("block_begin", "variable_begin", "comment_begin"):\n',
+        "R07e", "analyze", "seeded C07-3: `{%- raw %}` with whitespace in front",
+    ),
+    Variant(
+        "quiet-left-strip-test-spelled-out", TRACER,
+        '            if elem_type.endswith("_begin"):\n',
+        '            if elem_type in ("block_begin", "variable_begin", "comment_begin", "raw_begin", "linestatement_begin"):\n',
+        "QUIET", None, "R07e: the opening tokens listed (every one that can carry a strip marker is there)",
+    ),
+    Variant(
+        "field-token-rebuilt-spec-before-conversion", PYT,
+        '                constructed_token = "{{{field_name}{conv}{spec}}}".format(\n',
+        '                constructed_token = "{{{field_name}{spec}{conv}}}".format(\n',
+        "R07f", "_slice_template", "seeded C07-4 (same effect): `{name!r:>8}` is recorded as `{name:>8!r}`",
+    ),
+    Variant(
+        "quiet-field-token-as-an-f-string", PYT,
+        '                constructed_token = "{{{field_name}{conv}{spec}}}".format(\n                    field_name=field_name,\n                    conv=f"!{conversion}" if conversion else "",\n                    spec=f":{format_spec}" if format_spec else "",\n                )\n',
+        '                conv = f"!{conversion}" if conversion else ""\n                spec = f":{format_spec}" if format_spec else ""\n                constructed_token = f"{{{field_name}{conv}{spec}}}"\n',
+        "QUIET", None, "R07f: the same token as an f-string over two locals",
+    ),
     # behaviour-preserving refactors: must stay quiet
     Variant(
         "quiet-raw-lengths-through-locals-and-mirrored", BASE,
